@@ -1,0 +1,34 @@
+//go:build !verif
+
+// Package simhook holds the seams a deterministic simulator uses to own
+// scheduling, crash points and I/O faults inside spok.
+//
+// Without the "verif" build tag every function here is an empty, inlinable
+// no-op, so the shipped behaviour is unchanged.
+package simhook
+
+import "os"
+
+// Enabled reports whether the simulation hooks are compiled in.
+const Enabled = false
+
+// Yield marks a scheduling point (before a channel operation or a wait).
+func Yield(site, detail string) {}
+
+// Point marks a crash point or a step counter.
+func Point(site, detail string) {}
+
+// Open lets a simulator replace the outcome of an os.Open.
+func Open(f *os.File, err error, path string) (*os.File, error) { return f, err }
+
+// ReadErr lets a simulator replace the outcome of reading a file.
+func ReadErr(err error, path string) error { return err }
+
+// WriteFile lets a simulator take over a whole-file write; done == false
+// means "not handled, carry on with the real write".
+func WriteFile(site, path string, data []byte, perm os.FileMode) (done bool, err error) {
+	return false, nil
+}
+
+// Remove lets a simulator veto or fail a removal before it happens.
+func Remove(site, path string) error { return nil }
